@@ -19,7 +19,8 @@ def parse_case_line(line):
     params = dict(kv.split("=") for kv in secs[0].split()[1:])
     if secs[0].startswith("status"): return mk_status(params["sched"], int(params["n"]))
     if secs[0].startswith("latch"): return mk_latch(int(params["M"]), int(params["n"]), int(params["tclose"]))
-    if secs[0].startswith("mexec"): return mk_mcase(params["chan"], int(params["k"]), int(params["L"]), int(params["tclose"]), [int(t.split(":")[1]) for t in secs[1].split()])
+    if secs[0].startswith("mexec"): return mk_mcase(params["chan"], int(params["k"]), int(params["L"]), int(params["tclose"]), [int(t.split(":")[1]) for t in secs[1].split()],
+                                                     cancel=int(params.get("cancel", -1)), tcancel=int(params.get("tcancel", 0)))
     items = [(int(t.split(":")[1]), t.split(":")[2] == "1") for t in secs[1].split()]
     return mk_case(params["kind"], params["chan"], int(params["L"]), int(params["tau"]), int(params["tclose"]), items, params.get("instr", "metrics"), int(params.get("R", 0)),
                    tpre=int(params.get("tpre", 0)), precancel=int(params.get("precancel", 0)))
@@ -59,10 +60,39 @@ def gen_reclose_case(rng):
     return mk_case(kind, chan, 1, 0, tclose, items, rng.choice(["metrics", "none"]), precancel=1)
 
 MKINDS = ("arc_atomic", "arc_full_sync", "arc_crossbeam", "ogre_arc_atomic", "ogre_arc_full_sync")
-def mk_mcase(chan, k, L, tclose, durs):
-    """a Multi with k listeners, each with a futures executor of concurrency limit L; listener i takes dur * (i + 1) ms per item (no model: oracle only)"""
-    line = "mexec chan=%s k=%d L=%d tclose=%d ; %s ; S" % (chan, k, L, tclose, " ".join("it:%d" % d for d in durs))
-    return Case(line, None, dict(profile="mexec", chan=chan, k=k, L=L, tclose=tclose, items=durs))
+def mk_mcase(chan, k, L, tclose, durs, cancel=-1, tcancel=0):
+    """a Multi with k listeners, each with a futures executor of concurrency limit L; listener i takes dur * (i + 1) ms per item; optionally
+    listener `cancel` is removed individually (flush_and_cancel_executor) at `tcancel` ms, after the first half of the events (no model: oracle only)"""
+    line = "mexec chan=%s k=%d L=%d tclose=%d%s ; %s ; S" % (chan, k, L, tclose, " cancel=%d tcancel=%d" % (cancel, tcancel) if cancel >= 0 else "", " ".join("it:%d" % d for d in durs))
+    return Case(line, None, dict(profile="mexec", chan=chan, k=k, L=L, tclose=tclose, items=durs, cancel=cancel, tcancel=tcancel))
+
+def gen_mcase_removal(rng):
+    k = rng.randint(1, 4)
+    return mk_mcase(rng.choice(MKINDS), k, rng.choice([1, 1, 2, 4]), rng.choice([0, 5, 15, 45, 105]), [rng.choice([0, 10, 10, 20, 30]) for _ in range(rng.randint(1, 8))],
+                    cancel=rng.randrange(k) if rng.random() < 0.75 else -1, tcancel=rng.choice([0, 5, 15, 35]))
+
+def oracle_mexec_c12(case, recs):
+    """C12 on a Multi: every executor's close callback runs exactly once, after the last item of its stream was fully processed (the listener
+    removed individually: everything accepted before its removal, nothing sent afterwards), finds an ended status - programmatically ended
+    exactly for the executor that was scheduled to finish (removed individually) - and a finish time not before the start time"""
+    hits = []; m = case.meta
+    rets = [x for x in recs if x[0] == "ret"]
+    head = {x[2]: (x[3], x[4]) for x in rets if x[2] in (80, 83)}
+    if 80 not in head: return [(None, "no result")]
+    accepted = head[83][0]
+    per = {c: {x[3]: x[4] for x in rets if x[2] == c} for c in (82, 84, 85, 86, 87, 88)}
+    for i in range(m["k"]):
+        owed = per[88].get(i, -1) if m.get("cancel", -1) == i else accepted
+        if per[84].get(i) != 1: hits.append((None, "the close callback of executor %d ran %s times" % (i, per[84].get(i))))
+        elif per[82].get(i) != owed: hits.append((None, "listener %d processed %s events, %d were accepted while it existed" % (i, per[82].get(i), owed)))
+        elif per[85].get(i) != owed: hits.append((None, "the close callback of executor %d ran when %s of its %d events had been fully processed" % (i, per[85].get(i), owed)))
+        elif per[86].get(i) not in (3, 4): hits.append((None, "the close callback of executor %d found the non-ended status %s" % (i, per[86].get(i))))
+        elif per[86].get(i) == 3 and m.get("cancel", -1) != i: hits.append((None, "executor %d ended 'programmatically' although it was never scheduled to finish" % i))
+        # (scheduled before its task was first polled - tcancel = 0 - the executor still ends as 'stream ended': the property only says 'only if')
+        elif per[86].get(i) == 4 and m.get("cancel", -1) == i and m.get("tcancel", 0) > 0: hits.append((None, "executor %d was scheduled to finish while running, yet ended with status 'stream ended'" % i))
+        elif per[87].get(i) != 1: hits.append((None, "executor %d: finish time before start time" % i))
+        if hits: break
+    return hits
 
 def gen_mcase(rng):
     return mk_mcase(rng.choice(MKINDS), rng.randint(1, 4), rng.choice([1, 1, 1, 2, 4]), rng.choice([0, 0, 5, 15, 25, 45, 105]),
